@@ -27,6 +27,30 @@ class PathAbort(BaseException):
 # exploration context
 # --------------------------------------------------------------------------
 
+def _checked(solver, timeout_ms, *extra):
+    """solver.check with a watchdog thread calling Z3_interrupt (z3's own timeout is not always honoured)."""
+    import threading
+    done = threading.Event()
+
+    def fire():
+        if not done.is_set():
+            try:
+                solver.interrupt()
+            except Exception:
+                pass
+    tm = threading.Timer(timeout_ms / 1000.0 + 2.0, fire)
+    tm.daemon = True
+    tm.start()
+    try:
+        try:
+            return solver.check(*extra)
+        except z3.Z3Exception:
+            return z3.unknown
+    finally:
+        done.set()
+        tm.cancel()
+
+
 class Ctx:
     def __init__(self, prefix=(), query_timeout_ms=10000, assumptions=(), div_mode='assume', sqrt_mode='fresh', fork_policy='check', prefer_true=()):
         self.fork_policy = fork_policy
@@ -134,9 +158,12 @@ class Ctx:
         if self.prefer_true and self._site_matches():
             # a designated site (e.g. the -999 floor of the dBi table): do not fork; take the True
             # side as a recorded ASSUMPTION unless it is infeasible
-            self.solver.set('timeout', 1000)
-            rt = self.check(cond)
-            self.solver.set('timeout', self.query_timeout_ms)
+            if self.fork_policy == 'assume':
+                rt = z3.sat            # no query at all: an infeasible assumption shows up in the twin query
+            else:
+                self.solver.set('timeout', 1000)
+                rt = self.check(cond)
+                self.solver.set('timeout', self.query_timeout_ms)
             if rt == z3.unsat:
                 self.trail.append((False, False, tag))
                 return False
